@@ -41,11 +41,11 @@ AnalyseCase(ev) ==
       EA == ES \o EC
       t  == EmbTol(ev.emb) * ps
       rect == Rectilinear(In)
-      gp == GP(In, 3)
+      gp == IF "nogp" \in DOMAIN ev THEN FALSE ELSE GP(In, 3)     \* transformed copies (C13) are judged through their base case
       pts == ev.pts
       bb == BBox(In)
       cells == {<<2 * i + 1, 2 * j + 1>> : i \in bb[1]..(bb[3] - 1), j \in bb[2]..(bb[4] - 1)}
-  IN [ emb |-> ev.emb, ps |-> ps, pts |-> pts, gp |-> gp, rect |-> rect, bb |-> bb,
+  IN [ subj |-> ev.subj, clip |-> ev.clip, emb |-> ev.emb, ps |-> ps, pts |-> pts, gp |-> gp, rect |-> rect, bb |-> bb,
        ein |-> AllEdges(In), xs |-> XsOf(In), ys |-> YsOf(In),
        ws |-> [i \in 1..Len(pts) |-> Wind(ES, pts[i])],
        wc |-> [i \in 1..Len(pts) |-> Wind(EC, pts[i])],
